@@ -28,7 +28,7 @@ RULE = ("one case = a generated history of 1-60 operations over EventListHeap "
 COMPONENTS = {"real": ["pydsol.core.eventlist.EventListHeap", "pydsol.core.simevent.SimEvent",
                        "pydsol.core.units.Duration"],
               "stub": []}
-ASSUMPTIONS = ["sizes are swarm-varied: about 1 % of the histories are large (150-1000 operations; the drain comparison then runs every 37th operation)",
+ASSUMPTIONS = ["sizes are swarm-varied: about 1 % of the histories are large (150-4000 operations, up to ~2500 events pending; the drain comparison then runs every 37th operation)",
                "NaN times are outside the quantifier",
                "no scheduler/clock/second party in this property: the baton scheduler is idle; the same list is also driven through cancel_event in every C02 run"]
 
@@ -63,8 +63,9 @@ def generate(seed, tier, idx=0):
     classes = rng.choice([[0], [0], [0, 1], [0, 1, 2], [1, 2]])    # SimEvent / subclasses
     n = rng.choice([3, 4, 5, 6, 8, 10, 15, 20, 30, 45, 60])
     if rng.random() < (0.01 if tier == "quick" else 0.03):
-        n = rng.choice([150, 400, 1000])      # occasional large lists
+        n = rng.choice([150, 400, 1000, 2600, 4000])      # occasional large lists
     shape = rng.random()
+    huge = n > 1000           # first well over a thousand events pending, then removals
     w = {"add": 5, "readd": 1, "remove": 2, "remove_absent": 0.5, "pop": 2,
          "peek": 1, "contains": 1, "size": 0.5, "is_empty": 0.5, "clear": 0.15}
     if rng.random() < 0.03:
@@ -78,10 +79,14 @@ def generate(seed, tier, idx=0):
     names = list(w)
     weights = [w[k] for k in names]
     ops = []
-    for _ in range(n):
+    for k in range(n):
         op = rng.choices(names, weights)[0]
+        if huge and k < 1300:
+            op = "add"
         if op == "add":
             t = rng.choice(GRID)
+            if huge and t != float("inf") and rng.random() < 0.8:
+                t = rng.randrange(0, 3000) / 2.0      # many distinct times
             if ttype == "int":
                 t = int(t) if t != float("inf") else 10 ** 9
                 t += big
